@@ -394,8 +394,9 @@ def sumproduct(*args):
         x if isinstance(x, (float, int)) and not isinstance(x, bool) else 0
         for x in flatten(arg)) for arg in args))
 
-    # return the sum product
-    return np.sum(np.prod(values, axis=0))
+    # return the sum product, as a python number (a numpy scalar is not a number
+    # to the functions which later get it from a cell)
+    return np.sum(np.prod(values, axis=0)).item()
 
 
 @excel_math_func
